@@ -136,6 +136,19 @@ CHECKS = {
              "correspondence run, not proved; line classification by the parser's lambdas is rendered by the harness (typed lines).",
         technique="Lean 4: codec bijection (omega/decide), per-step and fold-invariant theorems on the index maintenance; differential correspondence of full views",
         ref='§4 C16'),
+    'C17': dict(
+        text=("C17_validation (over the WHOLE option table — ephemeral not given/True/False x directory x auth none/basic/stealth x deprecated stealth_auth x key x "
+              "single-hop — a combination is refused iff it is one of the invalid ones, and refusing has no effect: nothing is started), C17_settled (what a valid "
+              "combination settles), C17_success (listener on the loopback interface only; Tor is asked to forward the public port to exactly the bound port; the "
+              "result comes after the service creation; the address reports the public port), C17_stop (stopListening closes the listener), C17_no_leak (whatever "
+              "step fails — configuration unavailable / not a configuration / bootstrap / bind / service creation — listen() fails and no listener is open), "
+              "C17_loopback_only. Correspondence: the real endpoint built through the constructor, Tor.create_*_endpoint and the onion: string parser; listen() "
+              "with a failure injected at every step incl. rejected commands, all uploads failed and a connection lost during the wait."),
+        note=NOTE_COMMON + "PARTIAL: a recording listening port stands in for sockets (MemoryReactor); the service creation and descriptor wait themselves are C14/C15's "
+             "models — here they are one step that succeeds or fails. listen() of authenticated services is exercised up to the creation command only (the fake Tor "
+             "does not hand out real RSA keys); the onion: string form without controlPort= (launches a tor binary) is not run.",
+        technique="Lean 4: exhaustive decision theorem over the option table (decide +kernel over all 144 combinations, lifted by completeness of the table) + step-sequence theorems with a failure at every step; differential correspondence (exhaustive product)",
+        ref='§4 C17'),
     'C18': dict(
         text=("C18_reuse (if an existing entry is usable for the request — none requested: any entry that denotes an endpoint; requested: first word "
               "equal — nothing is sent and the endpoint is one such an entry denotes), C18_add (otherwise exactly one SETCONF whose SOCKSPort values are "
